@@ -11,6 +11,7 @@ Anything that does not fit raises: the generated fragment then does not compile 
 Output: coq/gen/Gen_bootstrap.v, a value `src : BootstrapSrc.bootstrap_src`.
 """
 import ast
+import builtins
 from fractions import Fraction
 from pathlib import Path
 
@@ -30,12 +31,15 @@ class Mismatch(ValueError):
 # template matcher
 # ------------------------------------------------------------------------------------------------
 class Env:
-    def __init__(self, where):
+    def __init__(self, where, reserved=()):
         self.where = where
         self.loc = {}          # template local -> actual name
         self.holes = {}        # hole -> (node, snapshot of loc)
+        self.reserved = set(reserved)   # names a local must not take (it would capture a name the template uses)
 
     def bind_local(self, pname, actual, node=None):
+        if actual in self.reserved:
+            self.fail(f"local variable {actual!r} shadows a name the code relies on", node)
         if pname in self.loc:
             if self.loc[pname] != actual:
                 self.fail(f"local {pname[2:]!r} is {self.loc[pname]!r} and {actual!r}", node)
@@ -150,10 +154,32 @@ def _body(fn):
     return b
 
 
-def match_body(where, stmts, template):
-    env = Env(where)
-    unify(ast.parse(template).body, stmts, env)
+def match_body(where, stmts, template, reserved=()):
+    tree = ast.parse(template)
+    literal = {n.id for n in ast.walk(tree) if isinstance(n, ast.Name) and not n.id.startswith(("L_", "H_"))}
+    env = Env(where, literal | set(reserved) | set(dir(builtins)))
+    unify(tree.body, stmts, env)
     return env
+
+
+def _module_names(tree):
+    """names bound at module level (imports, definitions, assignments)"""
+    out = set()
+    for n in tree.body:
+        if isinstance(n, (ast.Import, ast.ImportFrom)):
+            out |= {(a.asname or a.name).split(".")[0] for a in n.names}
+        elif isinstance(n, (ast.FunctionDef, ast.ClassDef, ast.AsyncFunctionDef)):
+            out.add(n.name)
+        elif isinstance(n, (ast.Assign, ast.AnnAssign, ast.AugAssign)):
+            for t in (n.targets if isinstance(n, ast.Assign) else [n.target]):
+                out |= {x.id for x in ast.walk(t) if isinstance(x, ast.Name)}
+    return out
+
+
+def _params(fn):
+    a = fn.args
+    return {x.arg for x in a.posonlyargs + a.args + a.kwonlyargs} | ({a.vararg.arg} if a.vararg else set()) \
+        | ({a.kwarg.arg} if a.kwarg else set())
 
 
 def _sig(fn, where, posargs, kwonly):
@@ -477,6 +503,7 @@ def translate(repo: Path):
     repo = Path(repo)
     tb = ast.parse((repo / SRC_B).read_text())
     tm = ast.parse((repo / SRC_M).read_text())
+    gb, gm = _module_names(tb), _module_names(tm)
 
     def top(tree, name, src):
         fs = [n for n in tree.body if isinstance(n, ast.FunctionDef) and n.name == name]
@@ -513,7 +540,7 @@ def translate(repo: Path):
     w = "generate_single_bootstrap_sample"
     fn = top(tb, w, SRC_B)
     _sig(fn, w, [], ["random_state"] + KW5)
-    e = match_body(w, _body(fn), T_SINGLE)
+    e = match_body(w, _body(fn), T_SINGLE, gb | _params(fn))
     frac = _const(e.holes["H_frac"][0], (int, float), w, "frac=")
     replace = _const(e.holes["H_replace"][0], (bool,), w, "replace=")
     axis = _const(e.holes["H_axis"][0], (int,), w, "axis=")
@@ -527,7 +554,7 @@ def translate(repo: Path):
     w = "generate_bootstrap_samples"
     fn = top(tb, w, SRC_B)
     _sig(fn, w, [], ["n_samples", "random_state"] + KW5)
-    e = match_body(w, _body(fn), T_SAMPLES)
+    e = match_body(w, _body(fn), T_SAMPLES, gb | _params(fn))
     tst = ast.unparse(e.holes["H_test"][0])
     test = {"random_state is None": "TestIsNone", "not random_state": "TestFalsy"}.get(tst)
     if test is None:
@@ -558,7 +585,7 @@ def translate(repo: Path):
         fn = top(tb, w, SRC_B)
         _sig(fn, w, [], ["quantiles", "samples"])
         _no_rebinding(fn, w, {"quantiles"})
-        e = match_body(w, _body(fn), tmpl)
+        e = match_body(w, _body(fn), tmpl, gb | _params(fn))
         fun, q, axis, method = _np_call(e.holes["H_npcall"][0], w)
         g_calls[w] = f"mk_qcall {fun} {_g_qexpr(q)} {_g_z(axis)} {method} {_g_bool(aligned)}"
 
@@ -566,7 +593,7 @@ def translate(repo: Path):
     w = "_align_sample_indices"
     fn = top(tb, w, SRC_B)
     _sig(fn, w, ["samples"], [])
-    e = match_body(w, _body(fn), T_ALIGN)
+    e = match_body(w, _body(fn), T_ALIGN, gb | _params(fn))
     lam = e.holes["H_fold"][0]
     ok = isinstance(lam, ast.Lambda) and len(lam.args.args) == 2 and not lam.args.kwonlyargs \
         and not lam.args.vararg and not lam.args.kwarg and not lam.args.defaults and not lam.args.posonlyargs
@@ -587,7 +614,7 @@ def translate(repo: Path):
     if fn.args.defaults:
         raise Mismatch(f"{w}: default values")
     _no_rebinding(fn, w, {"quantiles", "bootstrap_samples"})
-    e = match_body(w, _body(fn), T_DISPATCH)
+    e = match_body(w, _body(fn), T_DISPATCH, gb | _params(fn))
     i1 = _const(e.holes["H_i1"][0], (int,), w, "index of the tested sample")
     i2 = _const(e.holes["H_i2"][0], (int,), w, "index of the tested sample")
     if i1 != i2 or i1 < 0:
@@ -656,7 +683,7 @@ def translate(repo: Path):
             if isinstance(n, ast.Name) and n.id in ("n_boot", "ci_quantiles", "random_state") \
                     and not isinstance(n.ctx, ast.Load):
                 raise Mismatch(f"{w} line {n.lineno}: {n.id} is rebound before the bootstrap")
-    e = match_body(w, tail, T_INIT_TAIL)
+    e = match_body(w, tail, T_INIT_TAIL, gm | _params(fn))
     n_is_nboot = _is_name(e.holes["H_n"][0], "n_boot")
     if not n_is_nboot and not isinstance(e.holes["H_n"][0], (ast.Constant, ast.BinOp)):
         raise Mismatch(f"{w}: n_samples= is {_show(e.holes['H_n'][0])}")
@@ -675,7 +702,7 @@ def translate(repo: Path):
     fn = meth("_group_ci")
     _sig(fn, w, ["self", "bootstrap_samples", "ci_quantiles", "grouping_function"], [])
     _no_rebinding(fn, w, {"self", "bootstrap_samples", "ci_quantiles", "grouping_function"})
-    e = match_body(w, _body(fn), T_GROUP_CI)
+    e = match_body(w, _body(fn), T_GROUP_CI, gm | _params(fn))
     attr, args, kws, loc = _method_call(e.holes["H_call"], "L_r", w)
     if attr != "apply_grouping" or len(args) != 2 or not _is_name(args[0], "grouping_function") \
             or ast.unparse(args[1]) != "self.control_levels" or set(kws) != {"errors"}:
@@ -689,14 +716,14 @@ def translate(repo: Path):
     w = "MetricFrame._none_to_nan"
     fn = meth("_none_to_nan")
     _sig(fn, w, ["self", "target"], [])
-    match_body(w, _body(fn), T_NONE_TO_NAN)
+    match_body(w, _body(fn), T_NONE_TO_NAN, gm | _params(fn))
 
     # _populate_results_ci
     w = "MetricFrame._populate_results_ci"
     fn = meth("_populate_results_ci")
     _sig(fn, w, ["self", "bootstrap_samples", "ci_quantiles"], [])
     _no_rebinding(fn, w, {"self", "bootstrap_samples", "ci_quantiles"})
-    e = match_body(w, _body(fn), T_POPULATE)
+    e = match_body(w, _body(fn), T_POPULATE, gm | _params(fn))
     caches = []
     for k, agg_of in (("1", {"overall": "AOverall", "by_group": "AByGroup"}),
                       ("2", {"overall": "AOverall", "by_group": "AByGroup"})):
@@ -744,14 +771,14 @@ def translate(repo: Path):
         w = f"MetricFrame.{name}"
         fn = meth(name)
         _sig(fn, w, ["self"], [])
-        e = match_body(w, _body(fn), T_ACC1)
+        e = match_body(w, _body(fn), T_ACC1, gm | _params(fn))
         accessors.append((pub, _slot1(e.holes["H_key"][0], w)))
     for name, pub in (("difference_ci", "SDifference"), ("ratio_ci", "SRatio")):
         w = f"MetricFrame.{name}"
         fn = meth(name)
         _sig(fn, w, ["self", "method"], [])
         _no_rebinding(fn, w, {"self", "method"})
-        e = match_body(w, _body(fn), T_ACC2)
+        e = match_body(w, _body(fn), T_ACC2, gm | _params(fn))
         key = _const(e.holes["H_key"][0], (str,), w, "cache key")
         for cm in CM:
             accessors.append((f"({pub} {CM[cm]})", _slot2(key, cm, w)))
